@@ -310,6 +310,7 @@ type BookOpts struct {
 	BasicNames  []string
 	NoEmpty     bool
 	Wide        bool // recipes with dozens of ingredients (more than 32 distinct elements)
+	Redeclare   bool // some recipe headings occur twice in the file: the later declaration replaces the earlier one
 	NoRepeat    bool // no repeated ingredient inside a recipe
 	NoZero      bool
 }
@@ -413,6 +414,20 @@ func RandomBook(r *rand.Rand, o BookOpts) Book {
 		book[i] = rec
 	}
 	r.Shuffle(len(book), func(a, b int) { book[a], book[b] = book[b], book[a] })
+	if o.Redeclare && len(book) > 0 && len(bn) > 0 {
+		// later declarations of an existing heading: empty, empty with notes, or basic elements only
+		// (so the book stays acyclic whatever the earlier declaration said)
+		for k := 0; k < 1+r.Intn(2); k++ {
+			rec := Recipe{Name: book[r.Intn(len(book))].Name}
+			switch r.Intn(3) {
+			case 1:
+				rec.Notes = RandomNotes(r)
+			case 2:
+				rec.Ents = []Ent{{bn[r.Intn(len(bn))], leaf()}}
+			}
+			book = append(book, rec)
+		}
+	}
 	return book
 }
 
@@ -466,7 +481,7 @@ func RandomLog(r *rand.Rand, o LogOpts) Log {
 		if len(o.Foods) >= 34 && n > 0 && !o.NoDupFoods && r.Intn(3) == 0 {
 			// a long day: more than 32 different foods first, then repeats of early, late and boundary ones
 			idx := r.Perm(len(o.Foods))
-			distinct := 33 + r.Intn(len(o.Foods)-32)
+			distinct := 33 + r.Intn(min(len(o.Foods)-32, 45))
 			qty := func() Num {
 				if o.Exact {
 					return EQty(r)
